@@ -750,6 +750,8 @@ func (k *Checker) runProgram(class string, prog []Op, withModel bool) {
 					sid = o.Dst
 				}
 				c.Correspond("StateDB getters+hidden state after every op~model obs", cas, fullObs(st), k.m.Ask(fmt.Sprintf("obs %d %s", sid, obsReq)))
+				// the independent abstract system (accounts as a map, snapshot = copy, revert = restore)
+				c.Correspond("StateDB public getters after every op~abstract system StateAbs.astep", cas, pubObs(st), k.m.Ask(fmt.Sprintf("aobs %d %s", sid, obsReq)))
 			}
 		}
 		if c.Res.NDisagreements > nd && firstDis < 0 {
